@@ -132,6 +132,7 @@ let print_out name wantvalues (o : out) =
   | RSet r -> pr_res name r (fun s -> "set=" ^ hex_of_set s)
 
 let state : mstate option ref = ref None
+let incl = ref false
 let case_name = ref ""
 let take_topo () =
   let t = { t_root = !pend_root; t_objs = List.rev !pend_objs } in
@@ -146,13 +147,14 @@ let handle (l : string) =
   let w = List.filter (fun x -> x <> "") (String.split_on_char ' ' l) in
   match w with
   | [] -> ()
-  | "case" :: rest -> state := None; pend_objs := []; cur_objs := []; case_name := String.concat " " rest
+  | "case" :: rest -> incl := false; state := None; pend_objs := []; cur_objs := []; case_name := String.concat " " rest
   | ["T"; "begin"] -> pend_objs := []
   | ["T"; "root"; c] -> pend_root := set_of_hex c
   | ["T"; "obj"; ty; gp; os; has; c; m; sub] ->
     pend_objs := { o_type = n_of_dec ty; o_gp = n_of_dec gp; o_os = signed os_none os; o_hascpuset = bool01 has;
                    o_cpuset = set_of_hex c; o_mem = n_of_dec m; o_subtype = n_of_dec sub } :: !pend_objs
   | ["T"; "end"] -> ()
+  | ["incl"; v] -> incl := bool01 v
   | ["start"] -> state := Some (init_state (take_topo ()))
   | ["end"] -> Printf.printf "E %s\n" !case_name
   | op :: args ->
@@ -173,6 +175,9 @@ let handle (l : string) =
       | "besti", [id; t; f] -> do_op op true (OBestI (n_of_dec id, tgt_of t, n_of_dec f))
       | "local", [lc; f; m; nn] -> do_op op true (OLocal (loc_of lc, n_of_dec f, n_of_dec m, bool01 nn))
       | "defnodes", [f] -> do_op op true (ODefNodes (n_of_dec f))
+      | "allow", [c; n; f] ->
+        let so x = if x = "-" then None else Some (set_of_hex x) in
+        do_op op true (OAllow (!incl, so c, so n, n_of_dec f))
       | "retopo", [] -> let t = take_topo () in do_op "restrict" true (ORetopo t)
       | "dupsw", [] -> let _ = take_topo () in do_op "dup" true ODup
       | "xmlsw", [] -> let t = take_topo () in do_op "xml" true (OXml t)
